@@ -265,6 +265,32 @@ theorem C09_reassign_repairs (n : Node) (σ : St) (k : Nat) :
 still holds `c1`; assigning `c1` again puts `c1` back on the child input -/
 example : ((setIn wRecv (setInAt wRecv (build wRecv) [0] 0 (.c 7)) 0 (.c 1)).sub 0).get .inp 0 = .c 1 := by decide
 
+/-- an assignment that is REFUSED anywhere down the chain of value links — by the hint of the consumer
+one or more levels down, or because a node on the chain is marked running (`lk`) — changes no channel at
+all: the setter forwards before it stores (`pushIn false`); an accepted one is the forwarding setter -/
+theorem C09_refused_write_all_or_nothing (lk : Path → Bool) (p : Path) (n : Node) (σ : St) (k : Nat) (v : Val) :
+    ((pushIn false lk p n σ k v).2 = false → (pushIn false lk p n σ k v).1 = σ) ∧
+    ((pushIn false lk p n σ k v).2 = true → (pushIn false lk p n σ k v).1 = setIn n σ k v) :=
+  ⟨pushIn_refused lk p n σ k v, pushIn_accepted lk p n σ k v⟩
+
+/-- unhinted parameter, single consumer = a nested macro whose parameter is hinted `str | tuple`, which
+itself feeds one leaf: the refusal comes from one level down -/
+def exRefuse : Node :=
+  .mac [⟨.c 1, 0⟩] [.mac [⟨.nd, 1⟩] [.leaf 0 [.arg 0, .none, .none]] [.out 0 0] [0] [.arg 0]] [.out 0 0] [0] []
+
+/-- assigning the int `i7` is refused and nothing changes; were the setter to store before it forwards,
+the macro input would show `i7` while the chain below still holds `c1`; the same with a locked leaf two
+levels down -/
+theorem C09_store_first_witness :
+    (pushIn false (fun _ => false) [] exRefuse (build exRefuse) 0 (.c 1007)).2 = false ∧
+    ((pushIn false (fun _ => false) [] exRefuse (build exRefuse) 0 (.c 1007)).1.get .inp 0 = .c 1) ∧
+    (pushIn true (fun _ => false) [] exRefuse (build exRefuse) 0 (.c 1007)).2 = false ∧
+    ((pushIn true (fun _ => false) [] exRefuse (build exRefuse) 0 (.c 1007)).1.get .inp 0 = .c 1007) ∧
+    (((pushIn true (fun _ => false) [] exRefuse (build exRefuse) 0 (.c 1007)).1.sub 0).get .inp 0 = .c 1) ∧
+    (pushIn false (fun q => q == [0, 0]) [] exRefuse (build exRefuse) 0 (.c 5)).2 = false ∧
+    ((pushIn true (fun q => q == [0, 0]) [] exRefuse (build exRefuse) 0 (.c 5)).1.get .inp 0 = .c 5) := by
+  decide
+
 /-- "whichever side is updated", read literally: also an assignment to a child-level input keeps
 every link -/
 def C09_links_sync_Statement : Prop :=
@@ -394,6 +420,20 @@ theorem C09_preview_pinned_witness :
     Preview.runReqs (Preview.getRepaired exClasses 2) Preview.Cache.empty [0, 1] = [[0], [1, 2]] := by
   decide
 
+/-- creators with the same bare name (closure families, two set-up functions each defining `Model`):
+the wrapper evicts the registry entry under the very key the factory uses, so after ANY history of class
+creations every class is built from ITS OWN creator — signature, defaults, hints, labels and body -/
+theorem C09_factory_fresh_class (key : Nat → Nat) (reg : Nat → Option Nat) (cs : List Nat) :
+    Preview.runMakes key key reg cs = cs :=
+  Preview.runMakes_own key reg cs
+
+/-- evicting under another key (the qualified name) while the registry is keyed by the bare name: the
+second creator of that name gets the class of the first -/
+theorem C09_factory_stale_witness :
+    Preview.runMakes (fun c => 100 + c) (fun _ => 7) (fun _ => none) [1, 2, 1] = [1, 1, 1] ∧
+    Preview.runMakes (fun _ => 7) (fun _ => 7) (fun _ => none) [1, 2, 1] = [1, 2, 1] := by
+  decide
+
 /-- a keyword argument at construction or a later assignment replaces the default by value -/
 theorem C09_input_by_value (n : Node) (σ : St) (k k' : Nat) (v : Val) :
     (setIn n σ k v).get .inp k' = if k' = k then v else σ.get .inp k' :=
@@ -508,6 +548,10 @@ end PwVerif.C09
 #print axioms PwVerif.C09.C09_setter_keeps_links
 #print axioms PwVerif.C09.C09_assignment_reaches_chain
 #print axioms PwVerif.C09.C09_reassign_repairs
+#print axioms PwVerif.C09.C09_refused_write_all_or_nothing
+#print axioms PwVerif.C09.C09_store_first_witness
+#print axioms PwVerif.C09.C09_factory_fresh_class
+#print axioms PwVerif.C09.C09_factory_stale_witness
 #print axioms PwVerif.C09.C09_links_sync_receiving_witness
 #print axioms PwVerif.C09.C09_links_sync_not_statement
 #print axioms PwVerif.C09.C09_dup_return_repaired
